@@ -38,7 +38,7 @@ class HIP(dns.rdata.Rdata):
         super().__init__(rdclass, rdtype)
         self.hit: bytes = self._as_bytes(hit, True, 255)
         self.algorithm: int = self._as_uint8(algorithm)
-        self.key: bytes = self._as_bytes(key, True)
+        self.key: bytes = self._as_bytes(key, True, 65535)
         self.servers: tuple[dns.name.Name] = self._as_tuple(servers, self._as_name)
 
     def to_styled_text(self, style: dns.rdata.RdataStyle) -> str:
